@@ -201,6 +201,54 @@ def oracle(ctx, scale):
                                   {"Y": Y.tolist(), "Yref": Yref.tolist(), "p": p})
             else:
                 ctx.skipped += 1
+    # (1b) through the classes: the Hankel matrix stored by SSIcov/SSIdat for a reference list in ANY order has one
+    # block column per listed reference, in the listed order
+    from pyoma2.algorithms import SSIcov, SSIdat
+    from pyoma2.setup import SingleSetup
+
+    for _ in range(ctx.n(6, 60) * scale):
+        g = ctx.nprng()
+        l = rng.randint(2, 5)
+        r = rng.randint(1, l)
+        ref = rng.sample(range(l), r)
+        p = rng.randint(1, 4)
+        Nd = rng.randint(60, 160)
+        Y = g.standard_normal((Nd, l))
+        method = rng.choice(["cov_mm", "cov_R", "dat"])
+        cls = SSIdat if method == "dat" else SSIcov
+        kw = dict(name="a", br=p, ordmax=min(2, (p + 1) * r, p * l), ref_ind=list(ref))
+        if method != "dat":
+            kw["method"] = method
+        ss = SingleSetup(Y.copy(), fs=10.0)
+        alg = cls(**kw)
+        ss.add_algorithms(alg)
+        try:
+            ss.run_by_name("a")
+        except (np.linalg.LinAlgError, ValueError, IndexError):
+            ctx.skipped += 1
+            continue
+        H = alg.result.H
+        ctx.oracle_cases += 1
+        ctx.nontrivial.add(("class", method, l, tuple(ref), p))
+        inp = {"Y": Y.T.tolist(), "Yref": Y.T[ref, :].tolist(), "p": p, "method": method, "ref_ind": ref, "through": cls.__name__}
+        if method in ("cov_mm", "cov_R"):
+            E = (_indep_mm if method == "cov_mm" else _indep_R)(Y.T, Y.T[ref, :], p)
+            if H.shape != E.shape or max_rel_err(H, E) > 1e-10:
+                ctx.violation(f"class-entry-{method}", f"{cls.__name__}(ref_ind={ref}): stored Hankel matrix differs from the definition with the references in the listed order", inp)
+        else:
+            N = Nd - 2 * p - 1
+            if N - 1 >= (r + l) * (p + 1) + 1:
+                Yf = np.vstack([Y.T[:, p + 2 + i : N + p + 1 + i] for i in range(p + 1)]) / np.sqrt(N)
+                Yp = np.vstack([Y.T[ref, :][:, p + 1 - j : N + p - j] for j in range(p + 1)]) / np.sqrt(N)
+                # the Gram matrix cannot see the ORDER of the references (same subspace), so the stored matrix is also
+                # compared with the function applied to the references in the listed order
+                PP = Yp @ Yp.T
+                if np.linalg.cond(PP) < 1e6:
+                    want = Yf @ Yp.T
+                    Hfun, _ = bh(Y.T, Y.T[ref, :], p, "dat")
+                    gram_ok = max_rel_err(H @ H.T, want @ np.linalg.solve(PP, want.T)) <= 1e-8
+                    if H.shape != ((p + 1) * l, (p + 1) * r) or not gram_ok or max_rel_err(H, Hfun) > 1e-10:
+                        ctx.violation("class-dat-gram", f"{cls.__name__}(ref_ind={ref}): stored data-driven matrix is not the projection onto the LISTED past reference outputs", inp)
     # (2) unit-impulse basis
     if ctx.thorough:
         shapes = [(l, r, p, Nd) for l in (1, 2, 3) for r in range(1, l + 1) for p in (1, 2, 3) for Nd in (2 * p + 5, 2 * p + 9)]
